@@ -77,15 +77,21 @@ static int match_case(char *s, char *r, int icase)
 /* return zero if an occurrence is found */
 int rstr_find(struct rstr *rs, char *s, int n, int *grps, int flg)
 {
+	return rstr_findat(rs, s, 0, n, grps, flg);
+}
+
+/* like rstr_find(), but start searching s at byte offset off */
+int rstr_findat(struct rstr *rs, char *s, int off, int n, int *grps, int flg)
+{
 	int len;
 	char *beg, *end;
 	char *r;
 	if (rs->rs)
-		return rset_find(rs->rs, s, n, grps, flg);
+		return rset_findat(rs->rs, s, off, n, grps, flg);
 	if ((rs->lbeg && (flg & RE_NOTBOL)) || (rs->lend && (flg & RE_NOTEOL)))
 		return -1;
 	len = strlen(rs->str);
-	beg = s;
+	beg = s + off;
 	end = s + strlen(s) - len - 1;
 	if (end < beg)
 		return -1;
